@@ -67,9 +67,7 @@ theorem did_url_roundtrip (d : DID) (h : wfDID Facts.C18.encodeSet d = true) :
     obtain ⟨⟨hh, hsegs⟩, hl⟩ := hrest
     obtain ⟨name, port, ok, rfl⟩ := wfHost_decomp hh
     have hs : SegsOK segs := fun s hs => by
-      have := hsegs s hs
-      simp only [Bool.and_eq_true, decide_eq_true_eq] at this
-      exact this
+      simpa using hsegs s hs
     obtain ⟨u, h1, h2, _⟩ := roundtrip_parts name port segs ok hs hl
     have hd : d = { method := sWeb, id := joinWith cColon (hEnc name port :: segs) } := by
       cases d; simp only [DID.mk.injEq]; exact ⟨hm, hjoin.symm⟩
@@ -85,12 +83,12 @@ theorem url_did_roundtrip_image (d : DID) (h : wfDID Facts.C18.encodeSet d = tru
 
 /-- the grammar is inhabited by the documented examples: did:web:localhost, did:web:localhost%3A3000:alice,
     did:web:localhost:alice%2Band%2Bbob:path -/
-example : wfDID Facts.C18.encodeSet { method := sWeb, id := [108, 111, 99, 97, 108, 104, 111, 115, 116] } = true ∧
-    wfDID Facts.C18.encodeSet { method := sWeb,
-      id := [108, 111, 99, 97, 108, 104, 111, 115, 116, 37, 51, 65, 51, 48, 48, 48, 58, 97, 108, 105, 99, 101] } = true ∧
-    wfDID Facts.C18.encodeSet { method := sWeb,
-      id := [108, 111, 99, 97, 108, 104, 111, 115, 116, 58, 97, 108, 105, 99, 101, 37, 50, 66, 97, 110, 100, 37, 50, 66,
-             98, 111, 98, 58, 112, 97, 116, 104] } = true := by decide
+example : wfDID Facts.C18.encodeSet ⟨sWeb, [108, 111, 99, 97, 108, 104, 111, 115, 116]⟩ = true ∧
+    wfDID Facts.C18.encodeSet
+      ⟨sWeb, [108, 111, 99, 97, 108, 104, 111, 115, 116, 37, 51, 65, 51, 48, 48, 48, 58, 97, 108, 105, 99, 101]⟩ = true ∧
+    wfDID Facts.C18.encodeSet
+      ⟨sWeb, [108, 111, 99, 97, 108, 104, 111, 115, 116, 58, 97, 108, 105, 99, 101, 37, 50, 66, 97, 110, 100, 37, 50, 66,
+              98, 111, 98, 58, 112, 97, 116, 104]⟩ = true := by decide
 
 /-- outside the grammar the law fails — `did.json` as last segment, a lower-case escape, an escaped non-ASCII rune
     (`URLToDID` truncates the rune `š` U+0161 to its low byte `a`): concrete identifiers that do not come back -/
